@@ -95,10 +95,15 @@ V("c04g-occupation-entry-incremented-explicitly", "C04", "silent",
   (PHAF, "        new_occupation_numbers[-1] += 1\n", "        new_occupation_numbers[-1] = new_occupation_numbers[-1] + 1\n"))
 COMBI = "piquasso/_math/combinatorics.py"
 V("c06e-divide-once-at-the-end", "C06", {"rule": "C06e", "contains": "arr_comb"},
-  (COMBI, "    prod = np.ones(n.shape, dtype=np.int64)\n\n    for i in range(k):\n        prod *= n - i\n        prod = prod // (i + 1)\n\n    return prod",
-   "    prod = np.ones(n.shape, dtype=np.int64)\n    denominator = 1\n\n    for i in range(k):\n        prod *= n - i\n        denominator *= i + 1\n\n    return prod // denominator"))
+  (COMBI, "    for i in range(k):\n        prod = np.where(i < reduced_k, prod * (n - i) // (i + 1), prod)\n\n    return np.where(n < k, 0, prod)",
+   "    denominator = 1\n\n    for i in range(k):\n        prod *= n - i\n        denominator *= i + 1\n\n    return prod // denominator"))
+V("c06e-vectorised-without-symmetric-reduction", "C06", {"rule": "C06e", "contains": "symmetric reduction"},
+  (COMBI, "    for i in range(k):\n        prod = np.where(i < reduced_k, prod * (n - i) // (i + 1), prod)\n\n    return np.where(n < k, 0, prod)",
+   "    for i in range(k):\n        prod *= n - i\n        prod = prod // (i + 1)\n\n    return prod"))
+V("c06e-scalar-without-symmetric-reduction", "C06", {"rule": "C06e", "contains": "symmetric reduction"},
+  (COMBI, "    k = min(k, n - k)\n\n", ""))
 V("c06e-one-statement-step", "C06", "silent",
-  (COMBI, "        prod *= n - i\n        prod = prod // (i + 1)\n", "        prod = prod * (n - i) // (i + 1)\n"))
+  (COMBI, "        prod *= n - i\n        prod //= i + 1\n", "        prod = prod * (n - i) // (i + 1)\n"))
 V("c06e-scalar-wrong-divisor", "C06", {"rule": "C06e", "contains": "comb"},
   (COMBI, "        prod *= n - i\n        prod //= i + 1\n", "        prod *= n - i\n        prod //= i + 2\n"))
 GSTATE = "piquasso/_simulators/gaussian/state.py"
@@ -224,6 +229,12 @@ V("c05g-plain-gram-with-conj-v-v", "C05", "silent",
   (PPROB, "        B_detected.append(G * np.outer(vector, np.conj(vector)))", "        B_detected.append(G * np.outer(np.conj(vector), vector))"))
 V("c05g-transposed-gram", "C05", "silent",
   (PPROB, "        G = np.conj(particle_overlap)\n", "        G = particle_overlap.T\n"))
+V("c16d-store-through-negated-complement-mask", "C16", {"rule": "C16d", "contains": "nb_calculate_index_list_for_appling_interferometer"},
+  (FSTEPS, "    all_occupation_numbers = np.zeros(d, dtype=np.int32)\n\n    index_list = []", "    is_auxiliary = np.zeros(d, dtype=np.bool_)\n    is_auxiliary[auxiliary_modes] = True\n    is_active = ~is_auxiliary\n\n    all_occupation_numbers = np.zeros(d, dtype=np.int32)\n\n    index_list = []"),
+  (FSTEPS, "                for idx, mode in enumerate(modes):\n                    all_occupation_numbers[mode] = column_vector_on_subspace[idx]\n", "                all_occupation_numbers[is_active] = column_vector_on_subspace\n"))
+V("c16d-store-through-complement-mask-only", "C16", "silent",
+  (FSTEPS, "    all_occupation_numbers = np.zeros(d, dtype=np.int32)\n\n    index_list = []", "    is_auxiliary = np.zeros(d, dtype=np.bool_)\n    is_auxiliary[auxiliary_modes] = True\n\n    all_occupation_numbers = np.zeros(d, dtype=np.int32)\n\n    index_list = []"),
+  (FSTEPS, "            for idx, mode in enumerate(auxiliary_modes):\n                all_occupation_numbers[mode] = auxiliary_occupation_numbers[idx]\n", "            all_occupation_numbers[is_auxiliary] = auxiliary_occupation_numbers\n"))
 # ------------------------------------------------------------------------------------------- C20
 V("c20-sub-add", "C20", {"rule": "C20c", "contains": "Sub"}, (EXPR, "ast.Sub: op.sub", "ast.Sub: op.add"))
 V("c20-lt-le", "C20", {"rule": "C20c", "contains": "Lt"}, (EXPR, "ast.Lt: op.lt", "ast.Lt: op.le"))
